@@ -55,6 +55,13 @@ def check_case(rep, case, stats):
                 problems.append("evaluate(...) and __call__(...) disagree")
             if not np.all(np.isfinite(G)):
                 problems.append("non-finite gradient on the open simplex")
+            try:
+                v3, G3 = g(np.asfortranarray(P), None if A is None else np.asfortranarray(A), return_grad=True)
+                tolg = 1e-9 * max(1e-300, float(np.abs(G).max()))
+                if np.shape(G3) != G.shape or not np.allclose(G3, G, rtol=1e-9, atol=tolg) or abs(float(v3) - float(v1)) > 1e-9 * max(abs(float(v1)), tolg):
+                    problems.append(f"Fortran-ordered inputs give another score / gradient ({float(v3)!r} vs {float(v1)!r})")
+            except Exception as e:
+                problems.append(f"Fortran-ordered inputs raise {type(e).__name__}: {e}")
             for pr in problems:
                 rep.violation(f"n={n} K={k} P={case['a']}/{q} x={x}: {name}[{aff}] via {label}: {pr}",
                               {"case": _c(case), "name": name, "aff": aff}, tags=(name, f"K={k}", f"n={n}", "shape"))
@@ -97,12 +104,14 @@ def clipped_entries(rep):
         for name in AVAILABLE_GEMINIS:
             A = gem.affinity(name, "lin1" if name.startswith("mmd") else "abs", xs)
             g = _str_to_gemini(name)
-            v, G = g(P.copy(), A, return_grad=True)
             mask = (P <= EPS) | (P >= 1 - EPS)
-            rep.case(("clip", P.tolist(), name))
-            if not np.all(np.asarray(G)[mask] == 0) or not np.all(np.isfinite(G)) or not np.isfinite(v):
-                rep.violation(f"{name}: clipped entries of P={P.tolist()} receive gradient {np.asarray(G)[mask].tolist()}",
-                              {"P": P.tolist(), "name": name}, tags=(name, "clip"))
+            # the memory layout of the prediction array is not part of its value: C order, Fortran order, a transposed view
+            for lay, Pl in (("C", P.copy()), ("F", np.asfortranarray(P)), ("view", np.ascontiguousarray(P.T).T)):
+                v, G = g(Pl, A, return_grad=True)
+                rep.case(("clip", P.tolist(), name, lay))
+                if not np.all(np.asarray(G)[mask] == 0) or not np.all(np.isfinite(G)) or not np.isfinite(v):
+                    rep.violation(f"{name}: clipped entries of P={P.tolist()} ({lay}-ordered array) receive gradient "
+                                  f"{np.asarray(G)[mask].tolist()}", {"P": P.tolist(), "name": name, "layout": lay}, tags=(name, "clip", lay))
 
 
 def run(tier):
